@@ -54,8 +54,8 @@ def mk_permute(t, p, dims, api='permute', variant=None, expr=False):
         obl = [{'kind': 'copy', 'region': 'c', 'ns': 'a', 'map': mm}]
     else:
         ct = CTYPE[cell]
-        mm, _ = expand(m, per)
-        ref = 'extern "C" void @R@(const %s* a, const %s* b, %s* c){ static const int m[%d]={%s}; for(int k=0;k<%d;k++) c[k]=a[m[k]]+b[m[k]]; }' % (ct, ct, ct, len(mm), ','.join(map(str, mm)), len(mm))
+        mm, ng = expand(m, per)
+        ref = 'extern "C" void @R@(const %s* a, const %s* b, %s* c){ static const int m[%d]={%s}; static const int g[%d]={%s}; for(int k=0;k<%d;k++){ %s v=a[m[k]]+b[m[k]]; c[k] = g[k] ? -v : v; } }' % (ct, ct, ct, len(mm), ','.join(map(str, mm)), len(mm), ','.join(str(x) for x in ng), len(mm), ct)
         regions.append(rreg('cref', t, prod(od)))
         stages.append({'mod': 'ref', 'fn': '@R@', 'args': ['a', 'b', 'cref']})
         obl = [{'kind': 'equal', 'a': 'c', 'b': 'cref', 'cells': len(mm), 'mode': 'EXACT'}]
@@ -81,8 +81,8 @@ def mk_roundtrip(t, p, dims):
 
 def mk_transpose(t, M, N, api):
     cell, per = CELL[t]
-    conj = api in ('ctrans', 'ctranspose')
-    call = {'transpose': 'transpose(a)', 'trans': 'trans(a)', 'ctrans': 'ctrans(a)', 'ctranspose': 'ctranspose(a)', 'trans_expr': 'trans(a+b)', 'transpose_expr': 'transpose(a+b)'}[api]
+    conj = api in ('ctrans', 'ctranspose', 'ctrans_expr', 'ctranspose_expr')
+    call = {'transpose': 'transpose(a)', 'trans': 'trans(a)', 'ctrans': 'ctrans(a)', 'ctranspose': 'ctranspose(a)', 'trans_expr': 'trans(a+b)', 'transpose_expr': 'transpose(a+b)', 'ctrans_expr': 'ctrans(a+b)', 'ctranspose_expr': 'ctranspose(a+b)'}[api]
     expr = api.endswith('_expr')
     ta, tc = tensor_t(t, [M, N]), tensor_t(t, [N, M])
     m = copy_map([1, 0], [M, N])
@@ -93,7 +93,7 @@ def mk_transpose(t, M, N, api):
     ref = ''
     if expr:
         ct = CTYPE[cell]
-        ref = 'extern "C" void @R@(const %s* a, const %s* b, %s* c){ static const int m[%d]={%s}; for(int k=0;k<%d;k++) c[k]=a[m[k]]+b[m[k]]; }' % (ct, ct, ct, len(mm), ','.join(map(str, mm)), len(mm))
+        ref = 'extern "C" void @R@(const %s* a, const %s* b, %s* c){ static const int m[%d]={%s}; static const int g[%d]={%s}; for(int k=0;k<%d;k++){ %s v=a[m[k]]+b[m[k]]; c[k] = g[k] ? -v : v; } }' % (ct, ct, ct, len(mm), ','.join(map(str, mm)), len(mm), ','.join(str(x) for x in ng), len(mm), ct)
         regions.append(rreg('cref', t, M * N)); stages.append({'mod': 'ref', 'fn': '@R@', 'args': ['a', 'b', 'cref']})
         obl = [{'kind': 'equal', 'a': 'c', 'b': 'cref', 'cells': len(mm), 'mode': 'EXACT'}]
     else:
@@ -163,6 +163,9 @@ def witnesses(tier, seed):
                 W.append(mk_transpose('f32', M, N, 'trans_expr'))
                 W.append(mk_transpose('f64', M, N, 'transpose_expr'))
                 W.append(mk_transpose('c64', M, N, 'ctranspose'))
+                W.append(mk_transpose('c128' if (M + N) % 2 else 'c64', M, N, 'ctranspose_expr'))
+                W.append(mk_transpose('c64' if (M + N) % 2 else 'c128', M, N, 'ctrans_expr'))
+                W.append(mk_transpose('c128', M, N, 'transpose_expr'))
     return W
 
 
